@@ -123,6 +123,12 @@ def run(ctx):
                     parts = _split_top(m.group(1))
                     if len(parts) == 2:
                         ranges.append((parts[0], parts[1]))
+        # the count is the whole range end - from: a constant taken off it (or put on it) is an off-by-N
+        for z in zs:
+            for a in z.term["args"]:
+                m = re.search(r"take\(.*?,((Sub|Add)\(Sub\(.*\),const:[1-9]\d*\))\)", pr.operand(a))
+                if m:
+                    res.fail(Finding("R-ZERO", "R-ZERO/%s/zero-count-adjusted" % f.path, "%s writes %s zero bytes: the range [from, end) has end - from bytes, so the adjusted count leaves the last byte(s) of the gained range with their old contents (or runs past it)" % (f.path.split("::")[-1], m.group(1)[:90]), f, z.term["span"]))
         skip = set()
         for bb, blk in enumerate(f.blocks):
             if blk["cleanup"] or blk["term"]["t"] != "switch":
